@@ -1860,7 +1860,7 @@ fn try_bitpacking(
                 max
             };
             order_preserving = order_preserving && plan_type.is_order_preserving();
-            let mut adjusted_query_plan = if query_plan.is_nullable() {
+            let adjusted_query_plan = if query_plan.is_nullable() {
                 // widen before fusing: FuseIntNulls computes `value - min + 1` in the key's own integer type
                 let widened = if query_plan.tag.non_nullable() != EncodingType::I64 {
                     planner.cast(query_plan, EncodingType::I64)
@@ -1876,14 +1876,14 @@ fn try_bitpacking(
                     .constant_expand(0, partition_len, EncodingType::I64)
                     .i64()?;
                 info!("EMITTING NULL CONSTANT EXPAND {:?}", x);
-                x
+                // the only branch whose rows have not been filtered by `compile_expr` yet
+                filter
+                    .apply_filter(planner, x.into())
+                    .i64()
+                    .expect("source type should be i64")
             } else {
                 planner.cast(query_plan, EncodingType::I64).i64()?
             };
-            adjusted_query_plan = filter
-                .apply_filter(planner, adjusted_query_plan.into())
-                .i64()
-                .expect("source type should be i64");
 
             if total_width == 0 {
                 plan = Some(adjusted_query_plan);
